@@ -3,8 +3,9 @@ Model of the tar header **reader**: `lib/tar/src/read_header.c` (`check_version`
 `read_header`), `record_to_memory.c`, `read_sparse_map_old.c`, `read_sparse_map_new.c`.
 
 The input stream is the list of the bytes not yet consumed.  `sqfs_istream_read(fp, buf, n)` returns
-`min n remaining` bytes, `sqfs_istream_skip` skips `min n remaining` bytes and never fails on a memory
-stream, so a read is `take`/`drop` and "short read" is a length test.
+`min n remaining` bytes, so a read is `take`/`drop` and "short read" is a length test.  `sqfs_istream_skip(fp, n)`
+(lib/sqfs/src/io/stream_api.c, since /repo 1ef571c) fails with `SQFS_ERROR_OUT_OF_BOUNDS` when fewer than `n` bytes
+are left — `istreamSkip` — so an archive cut inside padding or inside skipped data is an error, not a clean end.
 -/
 import Sqfs.Model.TarPax
 import Sqfs.Model.TarHeader
@@ -28,44 +29,57 @@ def checkVersion (h : Bytes) : Option Version :=
   else if magic = magicOld ∧ version = versionOld then some .prePosix                     -- "ustar " " \0"
   else none
 
-/-- `record_to_memory`: `size` bytes and the padding to the next multiple of 512; `none` = short read -/
+/-- `sqfs_istream_skip(fp, n)`: `none` = `SQFS_ERROR_OUT_OF_BOUNDS` (the input ends before `n` bytes were skipped; fix 1ef571c);
+    skipping 0 bytes never touches the stream -/
+def istreamSkip (s : Bytes) (n : Nat) : Option Bytes :=
+  if s.length < n then none else some (s.drop n)
+
+/-- `record_to_memory`: `size` bytes and the padding to the next multiple of 512; `none` = short read, or the input ends
+    inside the padding (record_to_memory.c:32-38: `sqfs_istream_skip` fails) -/
 def recordToMemory (s : Bytes) (size : Nat) : Option (Bytes × Bytes) :=
   if s.length < size then none
-  else some (s.take size, (s.drop size).drop (padding size))
+  else match istreamSkip (s.drop size) (padding size) with
+    | none => none
+    | some s' => some (s.take size, s')
 
 /-! ### old GNU sparse map (`read_sparse_map_old.c`) -/
 
+/-- is a numeric field of the map in use?  Repaired code (`fixes/C04-old-sparse-base256.patch`): a digit, or the marker 0x80 of a
+    positive base-256 number — GNU tar writes offsets and sizes from 8 GiB (8^11) on that way.  `b256 = false` is the code before
+    the repair: `isdigit` only, so such an entry is taken for the end of the list and the rest of the map is dropped silently. -/
+def oldSparseUsed (b256 : Bool) (c : UInt8) : Bool := isDigit c || (b256 && c = 0x80)
+
 /-- `parse`: up to `count` 24-byte entries; result: entries and whether the list ended early (`return 1`) -/
-def oldSparseParse : Nat → Bytes → List (Nat × Nat) → Option (List (Nat × Nat) × Bool)
+def oldSparseParse (b256 : Bool) : Nat → Bytes → List (Nat × Nat) → Option (List (Nat × Nat) × Bool)
   | 0, _, acc => some (acc, false)
   | n + 1, b, acc =>
     let off := b.take 12
     let num := (b.drop 12).take 12
-    if ¬ isDigit (off.headD 0) ∨ ¬ isDigit (num.headD 0) then some (acc, true)
+    if ¬ oldSparseUsed b256 (off.headD 0) ∨ ¬ oldSparseUsed b256 (num.headD 0) then some (acc, true)
     else match readNumber off, readNumber num with
-      | some o, some c => oldSparseParse n (b.drop 24) (acc ++ [(o, c)])
+      | some o, some c => oldSparseParse b256 n (b.drop 24) (acc ++ [(o, c)])
       | _, _ => none
 
 /-- the `do … while` loop over the 512-byte extension records -/
-def oldSparseExt : Nat → Bytes → List (Nat × Nat) → Option (List (Nat × Nat) × Bytes)
+def oldSparseExt (b256 : Bool) : Nat → Bytes → List (Nat × Nat) → Option (List (Nat × Nat) × Bytes)
   | 0, _, _ => none
   | f + 1, s, acc =>
     if s.length < 512 then none                                     -- "unexpected end-of-file"
     else
       let rec512 := s.take 512
-      match oldSparseParse 21 rec512 acc with
+      match oldSparseParse b256 21 rec512 acc with
       | none => none
       | some (acc', stop) =>
-        if ¬ stop ∧ (slice rec512 504 1).headD 0 ≠ 0 then oldSparseExt f (s.drop 512) acc'
+        if ¬ stop ∧ (slice rec512 504 1).headD 0 ≠ 0 then oldSparseExt b256 f (s.drop 512) acc'
         else some (acc', s.drop 512)
 
 /-- `read_gnu_old_sparse` (the caller treats an empty list as failure) -/
-def readGnuOldSparse (h : Bytes) (s : Bytes) : Option (List (Nat × Nat) × Bytes) :=
-  match oldSparseParse 4 (slice h 386 96) [] with
+def readGnuOldSparse (b256 : Bool) (h : Bytes) (s : Bytes) : Option (List (Nat × Nat) × Bytes) :=
+  match oldSparseParse b256 4 (slice h 386 96) [] with
   | none => none
   | some (l, stop) =>
     if stop ∨ (slice h 482 1).headD 0 = 0 then some (l, s)
-    else oldSparseExt (s.length / 512 + 1) s l
+    else oldSparseExt b256 (s.length / 512 + 1) s l
 
 /-! ### GNU sparse 1.0 map in the data area (`read_sparse_map_new.c`) -/
 
@@ -205,6 +219,7 @@ structure ReadCfg where
   rejectOversizedMap : Bool := true
   xattrKeepOrder : Bool := false
   schilyKeyDecode : Bool := true          -- `false`: the reader before `fixes/C04-xattr-key-escape.patch`
+  oldSparseBase256 : Bool := true         -- `false`: the reader before `fixes/C04-old-sparse-base256.patch`
 
 /-- the `for (;;)` loop of `read_header`; `fuel` bounds the number of 512-byte records read -/
 def readHeaderLoop (cfg : ReadCfg) : Nat → Bytes → Decoded → Nat → Bool → ReadResult
@@ -246,7 +261,12 @@ def readHeaderLoop (cfg : ReadCfg) : Nat → Bytes → Decoded → Nat → Bool 
             else if tf = 103 then                                  -- 'g' PAX global: skipped
               match sizeField with
               | none => .err
-              | some sz => readHeaderLoop cfg f (s.drop (sz + padding sz)) out mask false
+              | some sz =>
+                -- read_header.c:253-260: `pax_size += 512 - pax_size % 512` is a 64-bit addition; the skip fails when the
+                -- input ends inside the record or its padding
+                match istreamSkip s ((sz + padding sz) % U64) with
+                | none => .err
+                | some s' => readHeaderLoop cfg f s' out mask false
             else if tf = 120 then                                  -- 'x' PAX
               match sizeField with
               | none => .err
@@ -262,7 +282,7 @@ def readHeaderLoop (cfg : ReadCfg) : Nat → Bytes → Decoded → Nat → Bool 
               -- 'S': old GNU sparse map and real size, then fall through to decode_header
               let pre : Option (Decoded × Bytes) :=
                 if tf = 83 then
-                  match readGnuOldSparse h s with
+                  match readGnuOldSparse cfg.oldSparseBase256 h s with
                   | none => none
                   | some (l, s') =>
                     if l.isEmpty then none
